@@ -29,6 +29,7 @@ use concordium_base::{
         dlog::{Dlog, DlogSecret},
         enc_trans::{ElgDec, EncTrans, EncTransSecret},
         vcom_eq::VecComEq,
+        verif_dlogaggequal::DlogAndAggregateDlogsEqual,
     },
 };
 use hlib::{guarded, hex, quiet_panics, unhex, Rng};
@@ -213,9 +214,10 @@ fn run_kind<P: SigmaProtocol, T: Tk, U: Tk>(f: &Fam<P>, r: &mut Rng, seed: u64) 
                     Ok(p2) => { let mut ro3: T = mk_ro(&ctx); json!(verify(&mut ro3, &full, &p2)) } Err(_) => json!(false) };
                 padded.push(json!([e.0, a2]));
             }
-            Some((acc, padded))
+            Some((acc, padded, hex(ch.as_ref()), hex(&cb)))
         });
-        o.insert("trunc_attack".into(), match res { Ok(Some((acc, padded))) => json!({"accepted": acc, "padded": padded}), Ok(None) => json!({"accepted": false, "note": "prover None"}), Err(e) => json!({"accepted": "PANIC", "why": e}) });
+        let full_pub: Vec<String> = pubs_full.iter().map(sh).collect();
+        o.insert("trunc_attack".into(), match res { Ok(Some((acc, padded, ch, cb))) => json!({"accepted": acc, "padded": padded, "chal": ch, "resp": cb, "pub": full_pub}), Ok(None) => json!({"accepted": false, "note": "prover None"}), Err(e) => json!({"accepted": "PANIC", "why": e}) });
     }
     println!("{}", base);
 }
@@ -369,6 +371,41 @@ fn fam_rep(g: &mut Gen, n: usize) -> Fam<ReplicateAdapter<Dlog<C>>> {
         ext: if n == 0 { vec![] } else { vec![("responses".into(), 0, 4, 4 + 32 * n, junk32())] } }
 }
 
+/// DlogAndAggregateDlogsEqual (private reference module, reached through the cfg hook `verif_dlogaggequal`):
+/// k aggregates, aggregate i has 1 + (i mod 3) coefficients (so the sizes are a function of k);
+/// pubs = [dlog.public; dlog.coeff] ++ per aggregate (public :: coeffs); wit = common :: remaining exponents per aggregate;
+/// the serialized response is u32 k, per aggregate (u64 len, scalars), then response_common.
+fn dae_sizes(k: usize) -> Vec<usize> { (0..k).map(|i| 1 + i % 3).collect() }
+fn mk_dae(k: usize) -> Box<dyn Fn(&[S]) -> DlogAndAggregateDlogsEqual<C>> {
+    Box::new(move |p| {
+        let mut pos = 2; let mut aggs = vec![];
+        for n in dae_sizes(k) { aggs.push(AggregateDlog { public: pt(&p[pos]), coeff: p[pos + 1..pos + 1 + n].iter().map(pt).collect() }); pos += 1 + n; }
+        DlogAndAggregateDlogsEqual { dlog: Dlog { public: pt(&p[0]), coeff: pt(&p[1]) }, aggregate_dlogs: aggs }
+    })
+}
+fn fam_dae(g: &mut Gen, k: usize) -> Fam<DlogAndAggregateDlogsEqual<C>> {
+    let coeff = g.gen(); let x = g.w();
+    let mut pubs = vec![mul(&x, &coeff), coeff]; let mut wit = vec![x];
+    let mut offs = vec![]; let mut ext = vec![]; let mut pos = 4usize;
+    for (i, n) in dae_sizes(k).into_iter().enumerate() {
+        let cs: Vec<S> = (0..n).map(|_| g.gen()).collect(); let ws: Vec<S> = (1..n).map(|_| g.w()).collect();
+        let mut public = mul(&x, &cs[0]); for j in 1..n { public = add(&public, &mul(&ws[j - 1], &cs[j])); }
+        pubs.push(public); pubs.extend(cs); wit.extend(ws);
+        let cnt_at = pos; pos += 8; for _ in 1..n { offs.push(pos); pos += 32; }
+        ext.push((format!("responses[{}]", i), cnt_at, 8, pos, junk32()));
+    }
+    offs.push(pos);
+    // a surplus inner vector (empty) appended to the outer vector
+    ext.push(("responses".into(), 0, 4, pos, vec![0u8; 8]));
+    // truncated-response attack: one more aggregate (junk the prover knows nothing about)
+    let full: Vec<S> = { let mut f = pubs.clone(); let n = 1 + k % 3; for _ in 0..(1 + n) { f.push(g.rnd()); } f };
+    Fam { name: "dlogaggequal".into(), n: k, variant: g.var.name().into(), pubs, wit, mk: mk_dae(k),
+        mkw: Box::new(move |w| { let mut pos = 1; let mut v = vec![];
+            for n in dae_sizes(k) { v.push(w[pos..pos + n - 1].iter().map(|x| Rc::new(*x)).collect::<Vec<_>>()); pos += n - 1; }
+            (Rc::new(w[0]), v) }),
+        offs, expect_panic: false, attack: Some((full, mk_dae(k + 1))), ext }
+}
+
 fn mk_comeq_item(p: &[S]) -> ComEq<C, C> {
     ComEq { commitment: cmm(&p[0]), y: pt(&p[1]), cmm_key: CommitmentKey { g: pt(&p[2]), h: pt(&p[3]) }, g: pt(&p[4]) }
 }
@@ -504,6 +541,7 @@ fn cases(seed: u64, budget: u64) {
                 run(fam_comlin(&mut g, n), &mut r, s);
                 run(fam_vcomeq(&mut g, n), &mut r, s);
                 run(fam_rep(&mut g, n), &mut r, s);
+                if n <= 2 || n == 17 { run(fam_dae(&mut g, if n == 17 { 3 } else { n }), &mut r, s); } else if round % 2 == 0 { run(fam_dae(&mut g, 4 + n % 3), &mut r, s); }
                 // boundary sizes: number of commitments == key length (extra 0), key length - 1 (extra 1), and a longer key
                 if n <= 2 { run(fam_comeqsig(&mut g, n, 0), &mut r, s); run(fam_comeqsig(&mut g, n, 1), &mut r, s); run(fam_pssig(&mut g, n, 0), &mut r, s); run(fam_pssig(&mut g, n + 2, 1), &mut r, s); }
                 else if round % 2 == 0 { run(fam_comeqsig(&mut g, 3, (vi % 2) * 2), &mut r, s); run(fam_pssig(&mut g, 6, vi % 2), &mut r, s); }
